@@ -105,7 +105,11 @@ void random_vector (Stokes<T>& val, U scale)
 template<typename T>
 Estimate<T> invariant ( const Stokes< Estimate<T> >& stokes )
 {
-  Estimate<T> result = stokes.invariant();
+  // Stokes::invariant() keeps only the variance of I: the squared length of the
+  // polarization vector is computed from bare values (normsq of an Estimate)
+  Estimate<T> result = stokes[0] * stokes[0];
+  for (unsigned i=1; i<4; i++)
+    result -= stokes[i] * stokes[i];
 
   // the value is underestimated due to noise
   double bias = stokes[0].get_variance();
